@@ -31,6 +31,11 @@ CHECKS = {
             "on fixed configurations + Hypothesis-generated histories, real Grid vs numpy model after every step",
             "Histories up to the stated length are decided exhaustively on three configurations; longer "
             "histories and other configurations by generated search.", "3/C04", MPI_NOTE),
+    "C05": ("differential property-based testing (Hypothesis): every grid-level operator, the QN pipeline, a full Strang "
+            "step and the real driver on generated process grids vs the serial world (assembled global fields), plus "
+            "per-slice operator references at every slice's own global coordinates",
+            "Generated configurations x process grids x schedules; decomposition-independence to 1e-12 and agreement "
+            "with independent references on the serial world.", "3/C05", MPI_NOTE),
     "C07": ("property-based testing (Hypothesis): every evaluation entry point vs scipy.interpolate.BSpline on the "
             "knot vector the path uses (reference cross-checked by an own Cox-de Boor recursion)",
             "Generated spaces x coefficient vectors x boundary-focused points; differential against an independent "
@@ -53,6 +58,10 @@ CHECKS = {
     "C13": ("property-based testing (Hypothesis): ParallelGradient vs independent field-aligned finite-difference "
             "formula with Lagrange-derivative weights + metamorphic relations + observed convergence order",
             "Generated orders, grids, local radial ranges from real Layouts, potentials.", "3/C13", NUM_NOTE),
+    "C14": ("property-based testing (Hypothesis): DiffEqSolver vs an independent dense Galerkin assembly with the same "
+            "Gauss rule, manufactured polynomial solutions, linearity, mode independence, refusal of pure-Neumann problems",
+            "Generated coefficient functions, boundary-condition sets, right-hand sides, 1-3 ranks; condition-aware "
+            "tolerance.", "3/C14", MPI_NOTE + " " + NUM_NOTE),
     "C20": ("exhaustive enumeration of a finite box + Hypothesis far beyond it, brute-force divisor oracle, "
             "line-event budget for termination",
             "All triples of the box are decided (exhaustive:true for that sub-check); termination as a "
